@@ -82,6 +82,11 @@ func NewEncryptedISO(f afero.File, data1 []byte, clearRegions bool) (*EncryptedI
 		return nil, fmt.Errorf("read unencrypted regions count failed: %w", err)
 	}
 
+	// regions map must fit to first sector, also check it here to avoid huge allocation for malformed images
+	if maxCount := uint32((sectorSize - sizeBytes(binary.Size(hdr))) / sizeBytes(binary.Size(unencryptedRegion{}))); hdr.Count > maxCount {
+		return nil, fmt.Errorf("unexpected unencrypted regions count (%d), maximum %d", hdr.Count, maxCount)
+	}
+
 	unencryptedRegions := make([]unencryptedRegion, hdr.Count)
 	err = binary.Read(f, binary.BigEndian, unencryptedRegions)
 	if err != nil {
